@@ -45,7 +45,7 @@ type Env struct {
 	SelfH   int64
 	Clients []string // clients created in this history
 	emit    func(M, any)
-	report  func(Violation)
+	report  func(any)
 	hist    []M // requests of the current history (for violation reports)
 }
 
@@ -138,7 +138,7 @@ func specsStr(cs *ibctm.ClientState) any {
 	if len(cs.ProofSpecs) == len(commitmenttypes.GetSDKSpecs()) {
 		same := true
 		for i, s := range commitmenttypes.GetSDKSpecs() {
-			if cs.ProofSpecs[i] == nil || !s.Equal(cs.ProofSpecs[i]) {
+			if cs.ProofSpecs[i] == nil || s.String() != cs.ProofSpecs[i].String() {
 				same = false
 			}
 		}
